@@ -515,6 +515,7 @@ def run(chk):
                            "how": "test i: rng = np.random.default_rng([seed, 1, i]); data and shuffle seed as in "
                                   "harness/props/C04.py test_task; n_shuffles=19"})
     chk.extra["measured_rejection_rates"] = measured
+    same_statistic_stream(chk)
     chk.rule = (
         "Independent inputs only. Tests: X (T x 1, T 25..60; 25..40 for kde/geometric/poisson) drawn independently of (Y, Z); "
         "continuous N(0,1) or Poisson counts (every third test; always for the poisson estimator); Z absent / 1-2 columns, Y "
@@ -525,6 +526,52 @@ def run(chk):
         "alternative run with n=4 max_lag=3 at alpha 0.01 / 99 shuffles (more in thorough). "
         "Every test (stand-alone and inside the networks, up to 5 per target) is replayed in Coq. Distinct = distinct "
         "(alpha, surrogate values, observed) or network id.")
+
+
+def same_statistic_stream(chk):
+    """The exactness theorems speak of ONE statistic evaluated on the observed data and on every surrogate.  With non-default
+    estimator settings every estimator evaluation of a discovery run -- the observed values that are tested and the surrogate
+    values of the null -- must be made with the settings the caller asked for."""
+    import causationentropy.core.discovery as disc
+    rng = np.random.default_rng([chk.seed, 9])
+    plans = [("kde", dict(bandwidth=2.0)), ("kde", dict(bandwidth="scott")), ("knn", dict(metric="chebyshev", k_means=7)),
+             ("knn", dict(metric="cityblock", k_means=2))]
+    if chk.tier != "quick":
+        plans += [("geometric_knn", dict(k_means=3)), ("kde", dict(bandwidth=0.4))]
+    bad = None
+    for info, settings in plans:
+        for method in ("standard", "alternative"):
+            X = rng.standard_normal((40, 2))
+            want = {"method": info, "metric": settings.get("metric", "euclidean"), "k": settings.get("k_means", 5),
+                    "bandwidth": settings.get("bandwidth", "silverman")}
+            seen = []
+            orig = disc.conditional_mutual_information
+
+            def spy(Xa, Ya, Za=None, method="gaussian", metric="euclidean", k=6, bandwidth="silverman", **kw):
+                seen.append({"method": method, "metric": metric, "k": k, "bandwidth": bandwidth})
+                return orig(Xa, Ya, Za, method=method, metric=metric, k=k, bandwidth=bandwidth, **kw)
+            disc.conditional_mutual_information = spy
+            try:
+                with lib.quiet():
+                    disc.discover_network(X, method=method, information=info, max_lag=1, n_shuffles=4, **settings)
+            finally:
+                disc.conditional_mutual_information = orig
+            chk.case(key=("same_statistic", info, method, repr(settings)), nontrivial=True)
+            chk.count("same_statistic.runs")
+            chk.count("same_statistic.estimator_evaluations", len(seen))
+            relevant = {"kde": ["method", "bandwidth"], "knn": ["method", "metric", "k"], "geometric_knn": ["method", "metric", "k"]}[info]
+            wrong = [c for c in seen if any(c[f] != want[f] for f in relevant)]
+            if wrong and bad is None:
+                bad = (info, method, settings, wrong[0], len(wrong), len(seen))
+    if bad:
+        info, method, settings, w, nw, ns = bad
+        chk.violation("counterexample",
+                      f"discover_network(information={info!r}, method={method!r}, {settings}) evaluated the estimator {nw} of {ns} times "
+                      f"with other settings ({w}): observed values and their permutation null are then different statistics and the "
+                      f"test is not exact",
+                      {"stream": "same statistic for observed and null", "information": info, "method": method, "settings": {k: str(v) for k, v in settings.items()},
+                       "first_deviating_call": {k: str(v) for k, v in w.items()},
+                       "how": "X = np.random.default_rng([seed, 9]).standard_normal((40, 2)) drawn in order of the plan in harness/props/C04.py same_statistic_stream"})
 
 
 def replay(chk, rep):
